@@ -50,3 +50,34 @@ CLAIMED = {
   "note": "Part A replaces the VM by the harness issuing the memory calls the VM would issue; legality restrictions are listed in the evidence assumptions (e.g. children destroyed before the forking frame returns, as RCONT/DCONT do).",
  },
 }
+
+CLAIMED.update({
+ "C10": {
+  "level": "exploration",
+  "technique": SIM + "operation histories over values that share backing arrays (allocator state built by the preceding history), immutability invariant over all globals and data-segment constants after every step",
+  "text": "Seeded histories of 5..40 array/string operations (slices of slices, concatenation onto slices with spare capacity, array literals with computed elements evaluated repeatedly, literal-bodied functions, arrays captured by closures and iterated by generators while the body concatenates, index errors in between); after every statement every untouched global and every data-segment constant must render exactly as before. Weakest fit of the claimed set (DESIGN.md 6.C10): the dimension explored is aliasing state accumulated by the history. Sampling, not proof.",
+  "ref": "6.C10",
+  "note": "Globals are read through the exported memory API and rendered with value.String (the rendering toa uses). Mutation reachable only through unnamed values is out of reach.",
+ },
+ "C15": {
+  "level": "fault_enumeration",
+  "technique": SIM + "capacity exhaustion as the injected fault: data segment filled to each side of the 2^15 and 2^16 boundaries before ordinary statements (table enumerated completely), large-body programs, static operand-decode check plus unfilled twin session",
+  "text": "Only the size-limit clause is claimed. The data segment is filled to B+delta (B in {2^15,2^16}, delta -14..+3) before each of 14 statement kinds in both flavours (1008 cases, enumerated completely in both tiers) plus functions with 2^15+-2 locals and bodies around 2^15 instructions; seeded runs place the fill inside generated sessions. A statement must be refused at compile time or decode to in-range operands and behave exactly like the unfilled twin.",
+  "ref": "6.C15",
+  "note": "A compile-time panic counts as refusal. The fill appends nil entries to the DS slice the caller owns (what a long session does). The encode/decode round trip over all opcode x kind x address is a pure function and is not claimed.",
+ },
+ "C16": {
+  "level": "exploration",
+  "technique": SIM + "stream framing faults (line layout, comments/strings holding brackets and quotes, blank lines, long lines, missing final newline) against the built binary in file, REPL and -eval mode and the real Loop/FReader in process; statement-by-statement twin session as oracle",
+  "text": "A list of statements with known texts is laid out into a stream by the tape and executed by the real node.Loop+FReader in process and by the built cmd/calc in file mode, REPL mode (stdin from a regular file) and -eval; outputs must equal what the statements print when given one at a time to a twin session. A mode that does not terminate within a generous watchdog (confirmed by a second, longer run) is a violation.",
+  "ref": "6.C16",
+  "note": "No failing statements here (C08). Comments are kept off the last line of REPL statements / -eval text / newline-less streams (lexer spin, C06, unclaimed). Strings hold valid UTF-8 only (readline decodes runes). Interactive terminal editing is out of reach.",
+ },
+ "C19": {
+  "level": "fault_enumeration",
+  "technique": SIM + "fault sites enumerated (error class x site x run-time choice by simulated stdin x flavour) plus seeded generated sessions; captured report parsed and compared with the reference model's failing operation, operands and per-coroutine call stacks",
+  "text": "Every error class at every site kind (top level, call depth 1..6, parameters holding functions, closures, reassigned parameters, loop bodies, generators, generators of generators, zip members, built-ins), with the failing dynamic point fixed in the text or chosen at run time by stdin, in both flavours: the table is run completely in both tiers; seeded runs add generated sessions. The report's class, marked instruction (must be the last instruction dispatched), opcode family, operand values and the frames of the failing context and all its ancestors must match the model.",
+  "ref": "6.C19",
+  "note": "Temp-register opcodes print only the operands they fetch (printed operands must be a suffix of the model's). Crash shapes that never reach a report (DESIGN.md 5.3) are out of reach.",
+ },
+})
